@@ -31,22 +31,17 @@ func (t *TargetHasher) SetTargetChangeHash(target *model.Target) error {
 		return nil
 	}
 
-	// Collect the OutputHash values of all dependencies
-	dependencies := t.graph.GetDependencies(target)
-	dependencyHashes := make([]string, len(target.Dependencies))
-	for index, dependency := range dependencies {
-		targetDependency, ok := dependency.(*model.Target)
-		if !ok {
-			// Only consider dependencies that are targets
-			continue
-		}
-
+	// Collect the OutputHash values of all dependencies (aliases resolved to the targets they point to,
+	// so that a change reaching this target only through an alias still changes its hash)
+	dependencies := t.graph.GetTargetDependencies(target)
+	dependencyHashes := make([]string, 0, len(dependencies))
+	for _, targetDependency := range dependencies {
 		outputHash := targetDependency.OutputHash
 		if outputHash == "" {
 			return fmt.Errorf("dependency %s of %s has no output hash", targetDependency.Label, target.Label)
 		}
 
-		dependencyHashes[index] = targetDependency.OutputHash
+		dependencyHashes = append(dependencyHashes, outputHash)
 	}
 
 	changeHash, err := GetTargetChangeHash(*target, dependencyHashes)
